@@ -38,7 +38,7 @@ def r_prov(E):
                     f"{s.func} builds a {s.ctor} whose value depends on {_fmt(miss)} but records only "
                     f"{_fmt({(r[0], r[1]) for r in s.parents}) or 'no parent'}: editing that input does not recompute "
                     f"{c}.{x} (and whatever derives from it)", s.path, s.node.lineno, s.func,
-                    {"context": f"{c}.update_{x}", "clauses": ["all"] + (["footprint"] if "footprint" in x else []) + (["infra"] if "InfraHardware" in pm.mro(c) else [])}))
+                    {"context": f"{c}.update_{x}", "clauses": ["all"] + (["footprint"] if "footprint" in x else []) + (["infra"] if "InfraHardware" in pm.mro(c) else []) + (["usage"] if "core/usage" in pm.classes[c].path or "builders/services" in pm.classes[c].path else [])}))
         for w in cx.writes.get(x, []):
             # one obligation set per branch alternative of the written value (a parent recorded on one arm of an
             # if/else must not hide its absence on the other arm)
@@ -62,7 +62,7 @@ def r_prov(E):
                     f"sign, loop bound or dispatch — without any of its recorded ancestors leading back to it: an "
                     f"edit of that input leaves {c}.{x} stale", w.path, w.node.lineno, w.func,
                     {"context": f"{c}.update_{x}", "recorded": _fmt({(r[0], r[1]) for r in w.parents}),
-                     "clauses": ["all"] + (["footprint"] if "footprint" in x else []) + (["infra"] if "InfraHardware" in pm.mro(c) else [])}))
+                     "clauses": ["all"] + (["footprint"] if "footprint" in x else []) + (["infra"] if "InfraHardware" in pm.mro(c) else []) + (["usage"] if "core/usage" in pm.classes[c].path or "builders/services" in pm.classes[c].path else [])}))
             elif len(res.samples) < 6 and deps:
                 res.samples.append({"context": f"{c}.update_{x}", "site": norm(w.node)[:100],
                                     "dependencies": _fmt(deps)[:8],
@@ -130,6 +130,36 @@ def r_inplace(E):
                     f"{where[1]} calls .{name}() — which rounds its receiver in place — on a value that is or shares "
                     f"data with model attribute(s) {sorted(r[0] + '.' + r[1] for r in (b.shares or b.anc))}: computing "
                     f"{c}.{x} alters it", where[0], node.lineno, where[1], {"context": f"{c}.update_{x}"}))
+    # in-place unit conversions: `x.to(unit)` (and the operators that convert an argument: return_shifted_hourly_quantities
+    # converts its duration to hours) rewrite the object they are given; on an *input* of the model the user's value changes
+    # unit under their eyes and — floats being what they are — 10 min + 40 min + 10 min is 1.0 h while
+    # 0.1666… h + 40 min + 10 min is 0.9999999999999999 h: what a rule computes then depends on which rule ran before it
+    seen = set()
+    for (c, x), cx in E.contexts().items():
+        if cx is None:
+            continue
+        for (node, where, name, b) in cx.unitconv:
+            res.instances += 1
+            if b.fresh and not b.shares:
+                continue
+            # an object converting its *own* input (Storage.data_storage_duration -> hours) does so at a fixed point of its
+            # own rule sequence; an input of another object is shared by all the objects that read it (every job of a
+            # journey reads the steps' user_time_spent), and whichever is computed first rewrites it for the others
+            inputs = sorted({f"{r[0]}.{r[1]}" for r in (b.shares or ()) if r[0] in pm.ALL and not E.is_calc(r[0], r[1])
+                             and not r[2]})
+            if not inputs:
+                continue
+            key = f"{where[1]} :: {norm(node)[:120]} converts an input"
+            if key in seen:
+                continue
+            seen.add(key)
+            res.findings.append(Finding(
+                "R-INPLACE", key,
+                f"{where[1]} converts {inputs} to another unit in place ({'.to()' if name == 'to' else 'through .' + name + '()'}): "
+                f"an input of another object is rewritten while {c}.{x} is computed, and sums that involve it round "
+                f"differently afterwards (10 min + 40 min + 10 min = 1.0 h, 0.1666… h + 40 min + 10 min = "
+                f"0.9999999999999999 h), so what the other readers of that input compute depends on which of them ran first", where[0], node.lineno, where[1],
+                {"context": f"{c}.update_{x}"}))
     res.undecided += E.unknowns()
     res.floor = 3
     return res
